@@ -71,7 +71,10 @@ def walk(ctx, inst, filter_spec, stats):
         if len(avail) < len(ready):
             stats["pruned"] += len(ready) - len(avail)
         if not avail or any(a not in ready for a in avail):
-            raise RuntimeError(f"available {avail} not a non-empty subset of ready {ready}")
+            ctx.violation("c08_filtered_tree_dead_end_or_foreign_operation",
+                          {"available": avail, "ready": ready, "history": list(path)})
+            memo[key] = float("inf")
+            return memo[key]
         best = float("inf")
         for o in avail:
             for m in r.op_machines[o]:
@@ -102,7 +105,8 @@ def run_case(ctx, case):
     ctx.count("reference_search_nodes", nodes)
     if best != opt:
         ctx.violation("c08_filtered_tree_misses_optimum",
-                      {"filtered_best": best, "optimum": opt})
+                      {"filtered_best": best if best != float("inf") else "no complete history",
+                       "optimum": opt})
     if case.get("unfiltered_twin"):
         s2 = {"leaves": 0, "nodes": 0, "pruned": 0}
         full = walk(ctx, inst, None, s2)
